@@ -887,7 +887,7 @@ func C17(c *mon.Ctx) {
 	c.Assume = []string{
 		"only ASTs that cedar-go's Resolve() accepts take part in the equality checks; identifiers (type, namespace, annotation names) are valid non-reserved Cedar identifiers, extension types are the four known ones, all strings are valid UTF-8",
 		"common type names avoid the names the Cedar grammar reserves for them (Bool, Boolean, Entity, Extension, Long, Record, Set, String); cedar-go's Resolve does not reject them but the text parser (correctly) does",
-		"a common type and an entity type with the same fully qualified name cannot be told apart in the text format: such schemas take the JSON paths only",
+		"a common type and an entity type with the same fully qualified name cannot be told apart in the text format where a type is expected: a schema takes the JSON paths only if an explicit entity reference to such a name stands in a type position (attribute, element, tags, context, common-type body); with the name only in parent / principal / resource lists, or referenced as a plain type name, it takes every path",
 		"an action with no appliesTo and an action whose principal or resource list is empty are both 'never applicable' and compare equal (the text format cannot spell an empty list)",
 		"an entity type and an enum of one name in one namespace (only expressible in the AST, rejected by Resolve) are not generated",
 		"namespace segments range over plain identifiers and every schema-grammar keyword / built-in type name the pinned text parser accepts there (Set, Action, entity, action, type, namespace, enum, tags, appliesTo, principal, resource, context, attributes, Entity, Record, Extension, String, Long, Bool, Boolean, ipaddr, decimal, datetime, duration); the reserved Cedar keywords in, is, if, then, else, like, has, true, false and __cedar are rejected by the parser as identifiers (probed) and stay excluded from type, namespace and path-segment names",
